@@ -92,6 +92,63 @@ def peel(t):
     return t
 
 
+def loop_pairs_ok(F, b):
+    """the weights vector starts empty and receives exactly one push per iteration of one counted loop whose range has
+    len(change_points) - 1 elements (`for i in 1..len`, `for i in 0..len - 1` with a saturating subtraction), and is not otherwise
+    modified; change_points is not modified after it was collected"""
+    import numabs, contracts, lp
+    from numabs import le, const
+    wk = numabs.NumWalker(b, numabs.Cfg(64), F, contracts.C, None)
+    try:
+        paths = wk.run()
+    except Exception:
+        return False
+    num = wk.num
+    rets = [p for p in paths if p.end[0] == "return"]
+    backs = [p for p in paths if p.end[0] == "back"]
+    if not rets or not backs:
+        return False
+    for p in rets:
+        r = p.ret
+        if not (isinstance(r, tuple) and r[0] == "tuple" and len(r[1]) == 2):
+            return False
+    for p in paths:
+        evs = p.calls()
+        byres = {e[3]: e for e in evs}
+        col = [e for e in evs if e[1] == "std::iter::Iterator::collect"]
+        new = [e for e in evs if e[1].split("::")[-1] in ("with_capacity", "new") and "Vec" in e[1]]
+        if len(col) != 1 or len(new) != 1:
+            return False
+        pushes = [e for e in evs if e[1].split("::")[-1] in MUTATORS and "Vec" in e[1]]
+        if p.end[0] == "back":
+            if len(pushes) != 1 or not pushes[0][1].endswith("::push"):
+                return False
+            its = [e for e in evs if e[1] == "std::iter::IntoIterator::into_iter" and isinstance(e[2][0], tuple) and e[2][0][0] == "agg" and str(e[2][0][2]).endswith("ops::Range")]
+            if len(its) != 1:
+                return False
+            rng = its[0][2][0]
+            # the range at loop entry: start is (s + 1*trip) once generalised; take its base
+            start, end = rng[4][0], rng[4][1]
+            if isinstance(start, tuple) and start[0] == "lin":
+                start = start[1]
+            lens = [e for e in evs if e[1].endswith("Vec::<T, A>::len") or e[1].endswith("Vec::<T>::len")]
+            if not lens:
+                return False
+            num.ctx_events = p.state["events"]
+            a_s, a_e = num.aff(start), num.aff(end)
+            L = num.aff(lens[0][3])
+            if a_s is None or a_e is None or L is None:
+                return False
+            base = wk.full_store(p.state)
+            goal = [le(a_e - a_s, L - const(1)), le(L - const(1), a_e - a_s)]
+            # (inside the loop the range is not empty, so len >= 1 and a saturating len - 1 is the plain one)
+            if not all(lp.entails(num.close(base, [g]), g) for g in goal):
+                return False
+        elif pushes:
+            return False
+    return True
+
+
 def run_implied(chk, F):
     chk.rule("I1.cutoff", floor=2, doc="get_implied_distribution consumes the change-point iterator only through an adaptor that stops at the first item it rejects (take_while / map_while) and whose predicate bounds the length component by a constant: the set-up ends at the first length above the bound instead of walking every change point up to 2^64")
     chk.rule("I2.weights", floor=2, doc="the weight vector is exactly collect(map(windows(change_points, 2))): one weight per pair of consecutive change points (len = len(change_points) - 1), and neither returned vector is modified afterwards")
@@ -158,8 +215,8 @@ def run_implied(chk, F):
                     if d is not None and d[1] in ("std::ops::Deref::deref", "std::vec::Vec::<T, A>::as_slice", "std::vec::Vec::<T>::as_slice"):
                         base = peel(d[8][0])
                     chain_ok = base == cp
-        if not chain_ok:
-            ok2, why2 = False, "the weights are not collect(map(windows(change_points, 2), ..))"
+        if not chain_ok and not loop_pairs_ok(F, b):
+            ok2, why2 = False, "the weights are neither collect(map(windows(change_points, 2), ..)) nor pushed once per iteration of a loop over len(change_points) - 1 indices"
         for e in evs:
             if e[1].split("::")[-1] in MUTATORS and e[8] and peel(e[8][0]) in (cp, wv):
                 ok2, why2 = False, "%s is applied to a returned vector after it was built: the weights no longer pair with the change points" % e[1].split("::")[-1]
